@@ -45,6 +45,9 @@ def plan(tier, seed):
     shards = [{"kind": "direct", "seed": seed * 811 + i, "n": n} for i in range(16)]
     shards.append({"kind": "plugin", "item": {"kind": "matrix"}, "seed": seed})
     shards.append({"kind": "plugin", "item": {"kind": "features"}, "seed": seed})
+    shards.append({"kind": "plugin", "item": {"kind": "features", "plugin_opts": "pydantic_dataclasses"}, "seed": seed})
+    shards.append({"kind": "plugin", "item": {"kind": "matrix", "plugin_opts": "pydantic_dataclasses"}, "seed": seed})
+    shards.append({"kind": "plugin", "item": {"kind": "extra", "name": "enum_only_pkg"}, "seed": seed})
     for i in range(8 if tier == "quick" else 150):
         shards.append({"kind": "plugin", "item": {"kind": "gen", "seed": seed * 100003 + i, "opts": {"services": False}}, "seed": seed + i})
     return shards
@@ -180,6 +183,13 @@ def check_definition(E, names_by_number: Dict[int, List[str]], canon_name: Optio
                 if x is not m:
                     res.violation("lookup", [dc, "by-name:" + how, "not-canonical-object"],
                                   f"{E.__name__} {how} {nm!r} is {x!r} (id differs from {E.__name__}({n}))", w)
+        try:
+            unp = pickle.loads(pickle.dumps(m))
+            if E(unp) is not m:
+                res.violation("lookup", [dc, "by-number:given-an-unpickled-member", "not-canonical-object"],
+                              f"{E.__name__}(<unpickled {m.name}>) is not the canonical member", w)
+        except Exception as e:
+            res.violation("lookup", [dc, "by-number:given-an-unpickled-member", "raised:" + type(e).__name__], f"{E.__name__}: {e!r}", w)
         if copy.copy(m) is not m or copy.deepcopy(m) is not m:
             res.violation("copy", [dc, "identity-lost"], f"copy/deepcopy of {E.__name__}({n}) is a different object", w)
         for proto in range(0, pickle.HIGHEST_PROTOCOL + 1):
@@ -317,6 +327,14 @@ def run_enum(E, H, attrs, names_by_number, canon_name, rng, res: Result, w):
     res.distinct.add(json.dumps([sorted((k, [x for x in v if x]) for k, v in names_by_number.items())]))
     check_definition(E, names_by_number, canon_name, res, w, dc)
     for u in und:
+        try:
+            r = E(E.try_value(u))
+            res.violation("lookup", [dc, "by-number:given-a-placeholder", "undeclared-number-accepted-by-call"],
+                          f"{E.__name__}(try_value({u})) returned {r!r}; lookup by call of an undeclared number raises ValueError", w)
+        except ValueError:
+            pass
+        except Exception as e:
+            res.violation("lookup", [dc, "by-number:given-a-placeholder", "raised:" + type(e).__name__], f"{E.__name__}(try_value({u})): {e!r}", w)
         t = E.try_value(u)
         if not isinstance(t, E) or int(t) != u or not (t == u) or t.name is not None:
             res.violation("open", [dc, "try_value", "undeclared-not-accepted-as-is"], f"{E.__name__}.try_value({u}) = {t!r} name={getattr(t, 'name', '?')!r}", w)
@@ -345,6 +363,43 @@ def run_enum(E, H, attrs, names_by_number, canon_name, rng, res: Result, w):
                       f"{E.__name__}: observable state of the enum class changed during the workload ({diff}){detail}", w)
     if len(res.samples) < 2:
         res.sample({"enum": E.__name__, "declared": {str(k): v for k, v in list(names_by_number.items())[:6]}, "undeclared_probed": und[:4]})
+
+
+def _generated_messages(b, res: Result, w):
+    """enum-typed fields of the GENERATED messages (every label): boundary numbers go through the generated constructor
+    (under pydantic that validates), and a decoded value is an instance of the class generated for the field's own enum"""
+    from ..values import attr_names, enum_bounds
+
+    for mi in b.user_messages():
+        cls = b.bp_class(mi.full_name)
+        names = attr_names(cls)
+        for fi in mi.fields:
+            inner = fi.map_value if fi.label == "map" else fi
+            if inner.kind != "enum" or fi.number not in names:
+                continue
+            try:
+                E = b.bp_enum(inner.type_name)
+            except Exception:
+                continue
+            for v in enum_bounds(b, inner.type_name):
+                val = E.try_value(v)
+                kw = {names[fi.number]: [val] if fi.label == "repeated" else ({(1 if fi.map_key.kind != "string" else "k") if fi.map_key.kind != "bool" else True: val} if fi.label == "map" else val)}
+                res.counters["generated_enum_fields"] += 1
+                ww = dict(w, msg=mi.full_name, field=fi.name, value=v)
+                vc = ("declared" if v in b.enums[inner.type_name].numbers else "undeclared") + ("-neg" if v < 0 else "")
+                try:
+                    m = cls(**kw)
+                    back = getattr(cls().parse(bytes(m)), names[fi.number])
+                except Exception as e:
+                    res.violation("binary", ["generated-message", fi.label, vc, "member", "raised:" + type(e).__name__],
+                                  f"{mi.full_name}.{fi.name} = {v}: {e!r}", ww)
+                    continue
+                got = back[0] if fi.label == "repeated" else (next(iter(back.values())) if fi.label == "map" else back)
+                if int(got) != v:
+                    res.violation("binary", ["generated-message", fi.label, vc, "member", "number-changed"], f"{mi.full_name}.{fi.name} = {v} came back as {got!r}", ww)
+                elif type(got) is not E:
+                    res.violation("binary", ["generated-message", fi.label, vc, "member", "decoded-into-another-enum-class"],
+                                  f"{mi.full_name}.{fi.name}: decoded value is a {type(got).__module__}.{type(got).__name__}, the field's enum is {E.__module__}.{E.__name__}", ww)
 
 
 def run_shard(shard) -> Result:
@@ -405,6 +460,7 @@ def run_shard(shard) -> Result:
             # a holder: first message that uses this enum in a singular field (generated), else a direct holder
             H, attrs = make_holder(E)
             run_enum(E, H, attrs, nbn, None, rng, res, w)
+        _generated_messages(b, res, {"kind": "plugin", "item": shard["item"]})
     finally:
         b.cleanup()
     return res
